@@ -44,15 +44,15 @@ Code it is anchored in: {', '.join(p['anchors']['files'])}
    call leaving state behind, or two cooperating sites — NOT something that ordinary first use (the README
    example, a cubic mesh with default arguments) would expose at once.  Aim for subtle: a careful generic
    checker of the property should have to work to find it.  The two changes must have different root causes
-   and preferably live in different functions.  For THIS round: change (a) must live in a *shared helper or utility* that the
-   anchored code relies on (for example Region/Mesh helper methods and properties, `Field._as_array`, the
-   component-to-axis mapping helpers, dtype/shape normalisation, the io helpers, `discretisedfield/util`), so that
-   its effect on THIS property is indirect and shows only for particular inputs.  Change (b) must manifest only
-   for particular *numeric regimes or argument types*: very large or very small coordinates or values, values
-   near the limits of the dtype, integer overflow, negative zero, non-finite entries where they are legitimate,
-   numpy scalars / 0-d arrays / generators / pathlib paths / tuples vs lists vs arrays as arguments, keyword vs
-   positional use, default arguments.  In both cases a checker that only tries "ordinary" floats, lists and
-   mid-range magnitudes on fresh objects must not see it.
+   and preferably live in different functions.  For THIS round: change (a) must need the *interplay of two public features from
+   different areas* of the library to show (for example: file I/O of an object that was transformed or sliced
+   before, selection or padding of a Fourier-transformed field, algebra on rotated / padded / resampled fields,
+   subregions together with periodic boundary conditions, validity masks together with integer or complex data,
+   renamed axes together with component mappings) - each feature alone, on a fresh default object, behaves.
+   Change (b) must sit in a *rarely used but documented* parameter, branch or special case of the anchored code
+   (an optional keyword, an alternative argument form, a deprecated alias, the 1-d or 4-d case, single-cell
+   meshes or axes, empty / unlabelled / unmapped components, the `inplace` or non-default variant, ...), so that
+   the main path that tutorials and tests use is untouched.
 4. comes with a demonstration `demo.py`: a small stand-alone program using only the public API that checks
    the PROPERTY (not an implementation detail) on a few inputs, exits 0 on the unchanged library and exits
    non-zero (assertion/exception) with your change applied.  The demo must be a legitimate consequence of
